@@ -77,8 +77,10 @@ func newC11Runner() *c11Runner {
 	return &c11Runner{stores: map[int]*message.ChannelStore{}, seenID: map[uint64]bool{}, seenIK: map[[2]uint64]bool{}, seenCM: map[uint64]bool{}}
 }
 
-func c11NewEngine() *message.Engine {
-	e, err := message.VerifOpenFS("db", vfs.NewMem())
+func c11NewEngine() *message.Engine { return c11OpenEngine(vfs.NewMem()) }
+
+func c11OpenEngine(fs vfs.FS) *message.Engine {
+	e, err := message.VerifOpenFS("db", fs)
 	if err != nil {
 		panic("open engine: " + err.Error())
 	}
@@ -457,6 +459,63 @@ func c11Import(e *message.Engine, mode string, data []byte) (st message.BackupSn
 	return e.ImportBackupSnapshotReader(context.Background(), bytes.NewReader(data), int64(len(data)))
 }
 
+// c11FailingReader fails every read beyond `limit` bytes of the pass that starts with the
+// `armPass`-th rewind to offset 0 (ImportBackupSnapshotReader: pass 1 = checksum, 2 = validation,
+// 3 = installation) — a backup-media read error in the middle of the install pass.
+type c11FailingReader struct {
+	r       *bytes.Reader
+	rewinds int
+	armPass int
+	limit   int64
+	pos     int64
+	failed  bool
+}
+
+func (f *c11FailingReader) Seek(off int64, whence int) (int64, error) {
+	n, err := f.r.Seek(off, whence)
+	if err == nil && whence == io.SeekStart && off == 0 {
+		f.rewinds++
+	}
+	f.pos = n
+	return n, err
+}
+
+func (f *c11FailingReader) Read(p []byte) (int, error) {
+	if f.rewinds >= f.armPass {
+		if f.pos >= f.limit {
+			f.failed = true
+			return 0, errors.New("backup media read error")
+		}
+		if int64(len(p)) > f.limit-f.pos {
+			p = p[:f.limit-f.pos]
+		}
+	}
+	n, err := f.r.Read(p)
+	f.pos += int64(n)
+	return n, err
+}
+
+// c11Interrupted: install the kept stream into a fresh target with a read error after `limit` bytes of
+// the install pass, reopen the target store, retry with the intact stream; returns the outcome of the
+// interrupted attempt, of the retry, and the dump after the retry.
+func (r *c11Runner) interrupted(limit int64) (first string, retry string, stats message.BackupSnapshotStats, dump string) {
+	fs := vfs.NewMem()
+	e := c11OpenEngine(fs)
+	fr := &c11FailingReader{r: bytes.NewReader(r.stream), armPass: 3, limit: limit}
+	_, err := e.ImportBackupSnapshotReader(context.Background(), fr, int64(len(r.stream)))
+	first = "ok"
+	if err != nil {
+		first = "err"
+	}
+	_ = e.Close()
+	e = c11OpenEngine(fs)
+	stats, err = e.ImportBackupSnapshotReader(context.Background(), bytes.NewReader(r.stream), int64(len(r.stream)))
+	retry = c11Err(err)
+	dump = c11Dump(e)
+	_ = e.Close()
+	return
+}
+
 func c11FixCRC(b []byte) {
 	if len(b) >= 4 {
 		binary.BigEndian.PutUint32(b[len(b)-4:], crc32.ChecksumIEEE(b[:len(b)-4]))
@@ -604,6 +663,57 @@ func (r *c11Runner) Step(op string) string {
 			}
 		}
 		return fmt.Sprintf("flips=%d rejected=%d truncs=%d rejected=%d partial=%d", flips, frej, truncs, trej, partial)
+	case "interrupt":
+		// interrupt permille : read error after permille/1000 of the stream in the install pass, reopen, retry
+		if len(f) != 2 {
+			return "bad-op"
+		}
+		pm, ok := c11Num(f[1])
+		if !ok || pm > 1000 {
+			return "bad-op"
+		}
+		if r.stream == nil {
+			return "no-stream"
+		}
+		first, retry, stats, dump := r.interrupted(int64(len(r.stream)) * int64(pm) / 1000)
+		if retry != "ok" {
+			return fmt.Sprintf("int=%s retry=%s # %s", first, retry, dump)
+		}
+		return fmt.Sprintf("int=%s retry=ok ch=%d msgs=%d maxid=%d # %s", first, stats.ChannelCount, stats.MessageCount, stats.MaxMessageID, dump)
+	case "intsweep":
+		// intsweep stride : the same at every stride-th byte offset; every retry must reproduce the clean restore
+		if len(f) != 2 {
+			return "bad-op"
+		}
+		stride, ok := c11Num(f[1])
+		if !ok || stride == 0 {
+			return "bad-op"
+		}
+		if r.stream == nil {
+			return "no-stream"
+		}
+		clean := c11NewEngine()
+		_, err := clean.ImportBackupSnapshotReader(context.Background(), bytes.NewReader(r.stream), int64(len(r.stream)))
+		want := c11Dump(clean)
+		_ = clean.Close()
+		if err != nil {
+			return "clean-import-failed"
+		}
+		n, failed, retryok, eq := 0, 0, 0, 0
+		for off := int64(0); off < int64(len(r.stream)); off += int64(stride) {
+			n++
+			first, retry, _, dump := r.interrupted(off)
+			if first == "err" {
+				failed++
+			}
+			if retry == "ok" {
+				retryok++
+			}
+			if dump == want {
+				eq++
+			}
+		}
+		return fmt.Sprintf("n=%d failed=%d retryok=%d eqclean=%d", n, failed, retryok, eq)
 	case "sweepfix":
 		if len(f) != 3 || (f[1] != "reader" && f[1] != "bytes") {
 			return "bad-op"
